@@ -25,11 +25,20 @@ Definition mode_eqb (a b : mode) : bool :=
    step fails (the rest of the undo is still carried out: rollback() only remembers the last error) *)
 Inductive rbfail := RbNone | RbStore | RbOther.
 
+(* how phase 1 fares: no failure / some protocol step fails / the failing step is a store-repository
+   write (the count update of commitStores, or — inside the retry loop of a repeated phase 1 —
+   the removal of the store the transaction had created) *)
+Inductive pfail := PNone | PFail | PFailStore.
+Definition pf_any (f : pfail) : bool := match f with PNone => false | _ => true end.
+Definition pf_store (f : pfail) : bool := match f with PFailStore => true | _ => false end.
+Arguments pf_any : simpl never.
+Arguments pf_store : simpl never.
+
 Inductive call :=
 | CBegin
-| CCommit (f1 f2 : bool)
+| CCommit (f1 : pfail) (f2 : bool)
 | CRollback (f : rbfail)
-| CP1 (f : bool)
+| CP1 (f : pfail)
 | CP2 (f : bool)
 | CClose
 | CAdd (k v : N) (f : bool)
@@ -114,6 +123,18 @@ Definition undo (s : state) : state :=
        | Some _ => set_disk s (add_count (disk s) (bcount s - wcount s))
        | None => s
        end.
+(* the rollback run by a failing Phase2Commit: the log position is finalizeCommit whatever phase 1
+   did, so the count delta (nodeRepository.count - current B-tree count) is applied even when phase 1
+   had persisted nothing *)
+Definition undo_p2 (s : state) : state :=
+  if created s then set_disk s None
+  else set_disk s (add_count (disk s) (bcount s - wcount s)).
+(* a created store that could not be removed keeps what phase 1 wrote for it *)
+Definition keep_created (s : state) : state :=
+  match prepared s with
+  | Some w => set_disk s (set_items (disk s) w)
+  | None => s
+  end.
 (* the rollback run by a Phase1Commit that is called again over already persisted work: the log
    position was rewound by the second run, so the info record of the first run is not put back *)
 Definition undo_rewound (s : state) : state :=
@@ -174,7 +195,7 @@ Definition has_db_update (w : witems) : bool :=
 Arguments has_db_update : simpl never.
 
 (* Transaction.Phase1Commit *)
-Definition do_p1 (f : bool) (s : state) : result * state :=
+Definition do_p1 (f : pfail) (s : state) : result * state :=
   if negb (has_begun s) then (RErr, s)
   else
     let s1 := set_phase s 1 in
@@ -197,11 +218,15 @@ Definition do_p1 (f : bool) (s : state) : result * state :=
                    the working copy reset to the stored items: the adds are silently dropped.
                  The log position was rewound by this run, so on failure the count update of the
                  first run is not put back (undo_rewound). *)
-              if f || created s || removed_db s || has_db_update (work s)
-              then (RErr, undo_rewound (set_phase s1 2))
+              if pf_any f || created s || removed_db s || has_db_update (work s)
+              then (RErr, if created s && pf_store f
+                          then keep_created (set_phase s1 2)   (* the retry could not remove the created store; its final
+                                                                 rollback finds the log rewound to "unknown" and undoes nothing:
+                                                                 the store stays with the root and count the first phase 1 wrote *)
+                          else undo_rewound (set_phase s1 2))
               else (ROk, set_refetched s1 (option_map snd (disk s)))
           | None =>
-              if f then (RErr, undo (set_phase s1 2))
+              if pf_any f then (RErr, undo (set_phase s1 2))
               else (ROk, set_prepared (set_disk s1 (add_count (disk s) (wcount s - bcount s)))   (* commitStores *)
                                       (Some (w_items (work s))))
           end
@@ -216,7 +241,7 @@ Definition do_p2 (f : bool) (s : state) : result * state :=
     match tmode s with
     | ForWriting =>
         (* phase2Commit always logs finalizeCommit first, also when phase 1 had nothing to persist *)
-        if f then (RErr, undo s2)
+        if f then (RErr, undo_p2 s2)
         else match prepared s with
              | Some w => (ROk, set_committed (set_disk s2 (set_items (disk s) w)))
              | None => (ROk, set_committed s2)
@@ -225,7 +250,7 @@ Definition do_p2 (f : bool) (s : state) : result * state :=
     end.
 
 (* SinglePhaseTransaction.Commit *)
-Definition do_commit (f1 f2 : bool) (s : state) : result * state :=
+Definition do_commit (f1 : pfail) (f2 : bool) (s : state) : result * state :=
   match do_p1 f1 s with
   | (ROk, s1) =>
       match do_p2 f2 s1 with
